@@ -138,6 +138,7 @@ func (c *Config) Prepare() {
 // library defines the target.
 var redirectNames = map[string]string{
 	"os.Remove":                      "vxOsRemove",
+	"os.IsNotExist":                  "vxOsIsNotExist",
 	"io/ioutil.ReadDir":              "vxReadDir",
 	"os.ReadDir":                     "vxOsReadDir",
 	"(*os.File).Stat":                "vxOsFileStat",
